@@ -320,3 +320,50 @@ pub fn decoders_seeds() -> Vec<Vec<u8>> {
     }
     v
 }
+
+/// Regression inputs for the `decoders` target: the inputs that exposed the three defects
+/// repaired in /repo (D1 trailing bytes, D2 SEC1 compact tag, D3 Curve25519 small order),
+/// for every suite they apply to.  They must now be rejected (the target returns Ok).
+pub fn decoders_regressions() -> Vec<(String, Vec<u8>)> {
+    ksf::set_default_spec(KsfSpec::Identity);
+    let mut v = Vec::new();
+    for (i, s) in suites().iter().enumerate() {
+        let m = s.meta();
+        let samples = decoders::samples(*s, &TapeSpec::from_u64(0xD0 + i as u64), false).expect("HARNESS-BUG: samples");
+        let idx = |ty: Ty| ALL_TYS.iter().position(|t| *t == ty).unwrap() as u8;
+        // D1
+        let mut d = vec![i as u8, idx(Ty::RegReq), 0];
+        d.extend_from_slice(&s.ser(Codec::Native, samples.get(Ty::RegReq)));
+        d.extend_from_slice(b"xx");
+        v.push((format!("D1-trailing-bytes-{i:02}"), d));
+        // D2: compact tag on every group-element field of every type
+        for ty in DECODERS11 {
+            let nat = s.ser(Codec::Native, samples.get(ty));
+            for f in fieldmap::fields(&m, ty) {
+                let nist = match f.kind {
+                    fieldmap::FieldKind::OprfElem => m.oprf != OprfKind::Ristretto255,
+                    fieldmap::FieldKind::KePk => matches!(m.ke, KeKind::P256 | KeKind::P384 | KeKind::P521),
+                    _ => false,
+                };
+                if nist {
+                    let mut b = nat.clone();
+                    b[f.off] = 0x05;
+                    let mut d = vec![i as u8, idx(ty), 0];
+                    d.extend_from_slice(&b);
+                    v.push((format!("D2-compact-tag-{i:02}-{}-{}", ty.name(), f.name), d));
+                }
+            }
+        }
+        // D3
+        if m.ke == KeKind::Curve25519 {
+            let nat = s.ser(Codec::Native, samples.get(Ty::RegResp));
+            let f = fieldmap::field(&m, Ty::RegResp, "server_s_pk");
+            for (k, u) in crate::refmodel::x25519_small_order_residues().iter().enumerate() {
+                let mut d = vec![i as u8, idx(Ty::RegResp), 0];
+                d.extend_from_slice(&fieldmap::splice(&nat, &f, u));
+                v.push((format!("D3-small-order-{i:02}-{k}"), d));
+            }
+        }
+    }
+    v
+}
